@@ -5,13 +5,13 @@
 package c03
 
 import (
-	"strings"
-	"encoding/json"
 	"crypto/tls"
+	"encoding/json"
 	"fmt"
 	"io"
 	"net"
 	"os"
+	"strings"
 	"sync"
 	"time"
 
@@ -60,16 +60,16 @@ func init() {
 // Session is one generated proxied session.
 type Session struct {
 	Index    int    `json:"index"`
-	UpNet    string `json:"up_net"`    // tcp, unix, tls
-	Peers    int    `json:"peers"`     // 1 or 2 peers in the upstream
-	DownTLS  bool   `json:"down_tls"`  // tls handler before proxy
-	TLS12    bool   `json:"tls12"`     // the TLS client speaks at most TLS 1.2 (its last data record and close_notify can be read together)
-	Prefetch int    `json:"prefetch"`  // bytes the matcher wants
-	CLen     int    `json:"c_len"`     // client -> upstream bytes
-	ULen     int    `json:"u_len"`     // upstream -> client bytes
-	Order    string `json:"order"`     // client-first, upstream-first, simultaneous, upstream-close-early, client-abort, upstream-reset
-	Chunk    int    `json:"chunk"`     // write chunk size
-	DelayUs  int    `json:"delay_us"`  // between chunks
+	UpNet    string `json:"up_net"`   // tcp, unix, tls
+	Peers    int    `json:"peers"`    // 1 or 2 peers in the upstream
+	DownTLS  bool   `json:"down_tls"` // tls handler before proxy
+	TLS12    bool   `json:"tls12"`    // the TLS client speaks at most TLS 1.2 (its last data record and close_notify can be read together)
+	Prefetch int    `json:"prefetch"` // bytes the matcher wants
+	CLen     int    `json:"c_len"`    // client -> upstream bytes
+	ULen     int    `json:"u_len"`    // upstream -> client bytes
+	Order    string `json:"order"`    // client-first, upstream-first, simultaneous, upstream-close-early, client-abort, upstream-reset
+	Chunk    int    `json:"chunk"`    // write chunk size
+	DelayUs  int    `json:"delay_us"` // between chunks
 	Policy   string `json:"policy"`
 }
 
@@ -225,7 +225,7 @@ func runSession(c *fw.Ctx, w *world, canary *oracle.Canary, s *Session) {
 			defer uc.Conn.Close()
 			switch s.Order {
 			case "client-first":
-				uc.ReadAllRecord() // EOF first ...
+				uc.ReadAllRecord()                              // EOF first ...
 				_ = writeChunks(uc.Conn, U, s.Chunk, s.DelayUs) // ... then our direction must still flow
 			case "upstream-first":
 				_ = writeChunks(uc.Conn, U, s.Chunk, s.DelayUs)
@@ -476,7 +476,6 @@ func interleavingOf(got, a, b []byte) bool {
 	}
 	return true
 }
-
 
 func replay(c *fw.Ctx, raw json.RawMessage) {
 	var w struct {
